@@ -680,3 +680,31 @@ func runRoute(raw Sx) (Sx, Sx) {
 }
 
 func init() { domains["route"] = domain{gen: genRoute_, run: runRoute} }
+
+// ---- domain "slash" (C14): the same request with path p and p + "/" on one container ----
+func genSlash(r *Rng) Sx {
+	raw := genRoute_(r)
+	q := sxReq(sxNth(raw, 1))
+	q.Path = strings.TrimRight(q.Path, "/")
+	if strings.Trim(q.Path, "/") == "" {
+		q.Path = "/" + r.Pick(litPool)
+	}
+	return L(sxNth(raw, 0), q.Sx())
+}
+
+func runSlash(raw Sx) (Sx, Sx) {
+	t := tableFromSx(sxNth(raw, 0))
+	q := sxReq(sxNth(raw, 1))
+	q2 := sxReq(sxNth(raw, 1))
+	q2.Path = q.Path + "/"
+	pr := &probe{}
+	c, kept, _ := buildContainer(t, pr)
+	obs1 := dispatchObs(c, pr, q)
+	*pr = probe{}
+	obs2 := dispatchObs(c, pr, q2)
+	o := NewOracles()
+	tabulateRouting(o, kept, q.Path)
+	return L(o.Sx(), kept.Sx(), q.Sx()), L(obs1, obs2)
+}
+
+func init() { domains["slash"] = domain{gen: genSlash, run: runSlash} }
